@@ -180,7 +180,7 @@ class C14(HttpProp):
         for j, nb in enumerate(sizes_b):
             kch = [1, 3, 2][j % 3]
             ops = ["http POST av hyph=nil hyph=1 history b:1", f"http POST av hyph=latest:1 hyph=1 history big:{nb}:{kch}",
-                   "http GET gcv hyph=anc:1:1 hyph=1 absent e", f"http POST as hyph=latest:1 hyph=1 snapshot big:{nb + 1}:{kch}",
+                   "http GET gcv hyph=anc:1:1 hyph=1 absent e", f"http POST as hyph=latest:1 hyph=1 snapshot big:{min(nb + 1, MAX)}:{kch}",
                    "http GET snap - hyph=1 absent e", f"http POST av hyph=nil hyph=fresh history big:{nb}:{kch}"]
             out.append(Case(f"c14-big{j}", ops, {"big": True}, mode="http"))
         return out
